@@ -35,6 +35,15 @@ class Decoded(object):
         return self.cache[k]
 
 
+def decode_failure(code, err):
+    """A property that speaks about the decoded data of *every* compiled code object fails where from_code raises - except for the input classes whose
+    decode failure is a recorded finding of C01 (flags the data model has no field for), which every other property skips."""
+    from . import findings
+    if isinstance(err, ValueError) and "Unknown flags" in str(err) and any(t.startswith("flag:") for t in findings.input_tags(code)):
+        return []
+    return ["from_code raised %s: %s" % (type(err).__name__, str(err)[:200])]
+
+
 def flat(cd):
     return [ins for block in cd.blocks for ins in block]
 
@@ -67,7 +76,7 @@ def _const_same(a, b, dec=None):
 def c02_reading(code, dec):
     cd, err = dec.get(code)
     if err is not None:
-        return []        # C01 reports decode failures
+        return decode_failure(code, err)
     out = []
     ref = oracle.cpython_instructions(code)
     mine = flat(cd)
@@ -124,7 +133,7 @@ def c02_reading(code, dec):
 def c13_blocks(code, dec):
     cd, err = dec.get(code)
     if err is not None:
-        return []
+        return decode_failure(code, err)
     out = []
     ref = oracle.cpython_instructions(code)
     targets = {0}
@@ -162,7 +171,7 @@ def c14_iteration(code, dec):
     """only meaningful at top level: all_code_data vs recursive co_consts walk"""
     cd, err = dec.get(code)
     if err is not None:
-        return []
+        return decode_failure(code, err)
     out = []
 
     def walk(c):
@@ -211,7 +220,7 @@ _KINDS = {"POSITIONAL_ONLY": "positional_only", "POSITIONAL_OR_KEYWORD": "positi
 def c04_signature(code, dec):
     cd, err = dec.get(code)
     if err is not None:
-        return []
+        return decode_failure(code, err)
     out = []
     fl = code.co_flags
     is_fn_like = bool(fl & inspect.CO_NEWLOCALS) and bool(fl & inspect.CO_OPTIMIZED)
@@ -298,7 +307,7 @@ def _first_use_ranks(code, cd):
 def c09_overrides(code, dec, deep=True):
     cd, err = dec.get(code)
     if err is not None:
-        return []
+        return decode_failure(code, err)
     out = []
     order = _first_use_ranks(code, cd)
     tables = {"name": code.co_names, "local": code.co_varnames, "cell": code.co_cellvars, "const": code.co_consts}
@@ -368,7 +377,7 @@ def c09_canonical(code, dec):
     object whose tables are in first-use order with no unreferenced entries decodes without any position override"""
     cd, err = dec.get(code)
     if err is not None:
-        return []
+        return decode_failure(code, err)
     try:
         canon = cd.normalize().to_code()
     except Exception:
